@@ -377,7 +377,7 @@ func hostField(kind string, f *model.FieldInfo) bool {
 	case kDupLL:
 		return f.Kind == model.FLeafList && f.Config && f.Type.Leafref == "" && !leafrefTargets(f.Owner.V)[f.Entry]
 	case kListMax:
-		return (f.Kind == model.FList || f.Kind == model.FOrdList) && f.Max > 0
+		return (f.Kind == model.FList || f.Kind == model.FOrdList || f.Kind == model.FUList) && f.Max > 0
 	case kLLMax:
 		return f.Kind == model.FLeafList && f.Max > 0
 	case kLLMin:
@@ -604,6 +604,14 @@ func inject(rt *rapid.T, v *model.Variant, m *model.Node, kind string, a active)
 		nl = append(nl, l[pos:]...)
 		n.LL[f.Name] = nl
 		flt.Desc = fmt.Sprintf("leaf-list now %v", nl)
+	case kind == kListMax && f.Kind == model.FUList:
+		// a list without keys: entries have no identity, any number of (empty) entries can be added
+		ul := append([]*model.Node(nil), n.UList[f.Name]...)
+		for len(ul) <= int(f.Max) {
+			ul = append(ul, model.GenNode(rt, f.Child, model.GenOpts{PlainStrings: true, Sparse: true}))
+		}
+		n.UList[f.Name] = ul
+		flt.Desc = fmt.Sprintf("keyless list has %d entries, max-elements %d", len(ul), f.Max)
 	case kind == kListMax:
 		ents := n.List[f.Name]
 		for len(ents) <= int(f.Max) {
@@ -673,6 +681,17 @@ func inject(rt *rapid.T, v *model.Variant, m *model.Node, kind string, a active)
 			flt.Desc += fmt.Sprintf("set %s=%s (choice path %v); ", g.Name, x, g.Choices)
 		}
 		if len(other) > 0 {
+			// half of the time a leaf of a nested choice, when there is one: the inner choice is validated
+			// by a different code path than the outer one
+			var inner []*model.FieldInfo
+			for _, g := range other {
+				if len(g.Choices) > 1 {
+					inner = append(inner, g)
+				}
+			}
+			if len(inner) > 0 && rapid.Bool().Draw(rt, "preferinner") {
+				other = inner
+			}
 			set(other[rapid.IntRange(0, len(other)-1).Draw(rt, "other")])
 		} else {
 			if len(sel) != 0 {
